@@ -53,6 +53,9 @@ checks = {
  "C14": dict(engine="wgen+wref+irx+spvx+text interpreters", technique="runtime monitoring: generated programs with overrides x value maps x resolution paths (ir.ProcessOverrides + IR interpreter / SPIR-V / HLSL / MSL / GLSL interpreters, glsl and msl PipelineConstants options); buffers compared with the reference evaluator binding the same values; canonical-dump monitor on the caller's module; hostile value maps; template campaign for derived workgroup sizes and module-scope initialisers",
    text="Held on the executions observed inside the operator subset naga's float64 override evaluator implements; four defects found by this check were repaired (fix: commits), the remaining ones (initialisers mentioning constants, non-arithmetic operators in initialisers, overrides in @workgroup_size, backend options with an empty map, MSL compound defaults, caller-module mutation) are listed findings.",
    note="Trusted base: wref (override-expressions evaluated as pipeline-creation constants: an overflow makes the case out of scope), irx, spvx, text interpreters.", ref="DESIGN.md §4 C14"),
+ "C15": dict(engine="wgen(hostile)+wref(policy)+spvx+text interpreters", technique="runtime monitoring: programs in a hostile profile (unguarded dynamic indices taken from buffer data, raw shift amounts, raw float-to-int conversions, run-time divisors, reads of variables without initialiser) x boundary-biased 32-bit inputs, compiled with each backend's protective options and executed in trapping interpreters; every trap is the violation, results are compared with the reference evaluator applying the same bounds-check policy",
+   text="Held on the executions observed in four lanes: SPIR-V (default wrappers, zero-init), MSL (Restrict and ReadZeroSkipWrite), HLSL (RestrictIndexing on function/private/workgroup data), GLSL (operators only; this naga has no GLSL index policy). Unprotected paths found (SPIR-V shifts and conversions, HLSL storage indexing, MSL runtime-array globals in helpers, GLSL division) are listed findings with witnesses.",
+   note="Trusted base: the interpreters' trap monitors (out-of-object access, poison read, division by zero/overflow, out-of-range conversion, oversized shift) and wref's policy semantics (restrict = clamp to last element, rzsw = read zero / skip write).", ref="DESIGN.md §4 C15"),
 }
 pending = {}
 for p in ALL:
